@@ -531,7 +531,7 @@ func (s *server) script(sess atpcs.Session, w *faultWriter) {
 			n := o.N
 			s.waitFor(func() bool { return s.mark >= n })
 		case "expectdonelong":
-			s.waitUntil(func() bool { return s.gotDone }, time.Now().Add(9*time.Second))
+			s.waitUntil(func() bool { return s.gotDone }, time.Now().Add(14*time.Second))
 		case "expectmarklong":
 			// a silent peer that keeps its output open (longer than Close's own timeout)
 			n := o.N
@@ -586,6 +586,10 @@ func runJob(job atpcs.Job) (res atpcs.JobResult) {
 	}
 	for i := range hits {
 		hits[i].Store(0)
+	}
+	var preProblem string
+	if job.PreHello != "" {
+		preProblem = preSession(job.PreHello, timeout)
 	}
 	delays := job.Delays
 	atp.VerifSetHooks(func(p int) {
@@ -702,6 +706,9 @@ func runJob(job atpcs.Job) (res atpcs.JobResult) {
 	prop := "C08"
 	if job.Session.Healthy && job.Fault == nil && job.WriteFailAfter < 0 {
 		prop = "C06"
+	}
+	if preProblem != "" {
+		problem("C08", preProblem, "")
 	}
 	verdict := "ok"
 	setVerdict := func(v string) {
@@ -831,6 +838,16 @@ func runJob(job atpcs.Job) (res atpcs.JobResult) {
 		var input any = map[string]any{"name": "n"}
 		if o.Bad {
 			input = map[string]any{"nosuchfield": 1}
+		}
+		switch o.Unenc {
+		case 1:
+			input = map[string]any{"name": "n", "f": func() {}}
+		case 2:
+			input = make(chan int)
+		case 3:
+			input = map[string]any{"name": complex(1, 2)}
+		case 4:
+			input = []any{"n", map[string]any{"deep": func() {}}}
 		}
 		started := make(chan struct{})
 		go func() {
@@ -1039,6 +1056,33 @@ func runJob(job atpcs.Job) (res atpcs.JobResult) {
 		ek = "eof"
 	}
 	items := atpcs.Split(delivered, ek)
+	// judge the hello here, in this disposable process and under a watchdog (a leaked lock inside
+	// the SDK must not take the harness down with it)
+	if len(items) > 0 && items[0].Kind == "raw" {
+		type hj struct {
+			dec, ok bool
+			ver     int64
+		}
+		ch := make(chan hj, 1)
+		raw := items[0].Raw
+		go func() {
+			d, v, o := atpcs.JudgeHello(raw)
+			ch <- hj{d, o, v}
+		}()
+		select {
+		case r := <-ch:
+			if r.dec {
+				items[0].HelloJudged, items[0].HelloVer, items[0].HelloOK = true, r.ver, r.ok
+			}
+		case <-time.After(2 * time.Second):
+			problem("C08", "loading the schema of the received hello once more in this process does not return (a lock left behind by an earlier ReadSchema?)", "")
+			setVerdict("hang")
+			var h atp.HelloMessage
+			if err := atpcs.DecMode().Unmarshal(raw, &h); err == nil {
+				items[0].HelloJudged, items[0].HelloVer, items[0].HelloOK = true, h.Version, false
+			}
+		}
+	}
 	wi := 0
 	ii := 0
 	for k := range evs {
@@ -1093,6 +1137,22 @@ func runJob(job atpcs.Job) (res atpcs.JobResult) {
 		}
 		if v1 := atpcs.Classify(it.Item, "v1"); v1.K == "v1done" {
 			intact["\x00v1\x00"+v1.XKey] = true
+		}
+	}
+	// ReadSchema may only succeed on a hello all of whose scope descriptions load on their own
+	// (judged with schema.UnserializeScope, not with the walk UnserializeSchema does itself)
+	if len(items) > 0 && items[0].Kind == "raw" {
+		for _, e := range evs {
+			if e.K == "ret" && e.Fn == "ReadSchema" && !e.Err {
+				var h atp.HelloMessage
+				if err := atpcs.DecMode().Unmarshal(items[0].Raw, &h); err == nil && items[0].HelloJudged && !items[0].HelloOK && verdict != "hang" {
+					if ok, where := atpcs.ScopesOK(h.Schema); !ok {
+						problem("C08", "ReadSchema returned a schema and no error for a hello that holds an unusable scope: "+where, "")
+						setVerdict("fabricated")
+					}
+				}
+				break
+			}
 		}
 	}
 	// every signal a caller received was emitted for its run (a good signal frame of that run in the
@@ -1150,6 +1210,46 @@ func runJob(job atpcs.Job) (res atpcs.JobResult) {
 	}
 	res.Ms = time.Since(t0).Milliseconds()
 	return res
+}
+
+// preSession lets another client of this process read a hello with a schema damaged in the given
+// flavour. It must return an error, in time.
+func preSession(kind string, timeout time.Duration) string {
+	s2cR, s2cW := io.Pipe()
+	c2sR, c2sW := io.Pipe()
+	defer func() { _ = s2cW.Close(); _ = c2sW.Close(); _ = s2cR.Close(); _ = c2sR.Close() }()
+	go func() {
+		var v any
+		_ = cbor.NewDecoder(c2sR).Decode(&v)
+		_, _ = s2cW.Write(atpcs.HelloBytesKind(3, kind))
+	}()
+	cli := atp.NewClient(chanRW{s2cR, c2sW})
+	type r struct {
+		err error
+		p   any
+	}
+	ch := make(chan r, 1)
+	go func() {
+		defer func() {
+			if p := recover(); p != nil {
+				ch <- r{p: p}
+			}
+		}()
+		_, err := cli.ReadSchema()
+		ch <- r{err: err}
+	}()
+	select {
+	case x := <-ch:
+		if x.p != nil {
+			return fmt.Sprint("first session: ReadSchema panicked on a hello with a bad schema (", kind, "): ", x.p)
+		}
+		if x.err == nil {
+			return "first session: ReadSchema accepted a hello with a bad schema (" + kind + ")"
+		}
+	case <-time.After(timeout):
+		return "first session: ReadSchema did not return on a hello with a bad schema (" + kind + ")"
+	}
+	return ""
 }
 
 // strictRun: in this session the run must succeed (exactly one work-done, no error message, unique).
